@@ -35,6 +35,7 @@ deriving DecidableEq, Repr
 /-- where the event-loop goroutine is -/
 inductive LoopPC
   | top                  -- `select` at the head of `for` in RunEventLoop (polls ctx / done / ticker)
+  | pre                  -- packet transport: readOneSegment polls `done` once before it arms the timeout
   | arm                  -- entering readOneSegment: about to `SetReadTimeout(conn, readOneSegmentTimeout)`
   | check                -- timeout armed, about to poll `done`
   | read                 -- parked in the first read of a segment (`io.ReadFull` / `ReadFrom`)
@@ -171,17 +172,18 @@ inductive OwnStep (sh : Shape) : St → St → Prop
   | topDone (s : St) (h : s.loop = .top) (hc : s.ctx = false) (hd : s.done = true) :
       OwnStep sh s { s with loop := .clean true }
   | topRead (s : St) (h : s.loop = .top) (hc : s.ctx = false) (hd : s.done = false) :
-      OwnStep sh s { s with loop := .arm }
+      OwnStep sh s { s with loop := if s.stream then .arm else .pre }
   | cleanDone (s : St) (r : Bool) (h : s.loop = .clean r) (hcl : cleanable s) :
       OwnStep sh s { s with loop := if r then .retn else .top }
   | ctxCloseCall (s : St) (hm : 0 < s.m) (h : s.loop = .ctxClose) (hc : s.cl 0 = .idle) :
       OwnStep sh s { s with cl := upd s.cl 0 .lock, loop := .inClose (.clean true) }
   | closeReturned (s : St) (a : LoopPC) (hm : 0 < s.m) (h : s.loop = .inClose a) (hc : s.cl 0 = .ret) :
       OwnStep sh s { s with cl := upd s.cl 0 .idle, loop := a }
-  /-- the packet transport polls `done` once more before arming -/
-  | armClosed (s : St) (h : s.loop = .arm) (hs : s.stream = false) (hd : s.done = true) :
+  | preClosed (s : St) (h : s.loop = .pre) (hd : s.done = true) :
       OwnStep sh s { s with loop := .errc false }
-  | arm (s : St) (h : s.loop = .arm) (hd : s.stream = true ∨ s.done = false) :
+  | preOpen (s : St) (h : s.loop = .pre) (hd : s.done = false) :
+      OwnStep sh s { s with loop := .arm }
+  | arm (s : St) (h : s.loop = .arm) :
       OwnStep sh s { s with dl := .future, loop := if sh.checkAfterArm then .check else .read }
   | checkDone (s : St) (h : s.loop = .check) (hd : s.done = true) :
       OwnStep sh s { s with dl := afterRead s, loop := .errc false }
@@ -299,14 +301,15 @@ def lbase (dl : Dl) : LoopPC → Nat
   | .drainArm => 6
   | .ctxClose => 6
   | .errc _ => 7
-  | .check => if dl = .past then 12 else 8
-  | .read => if dl = .past then 11 else 7
-  | .readMore => if dl = .past then 11 else 7
+  | .check => if dl = .past then 13 else 8
+  | .read => if dl = .past then 12 else 7
+  | .readMore => if dl = .past then 12 else 7
   | .arm => 9
-  | .top => 10
-  | .deliver _ => 11
-  | .ready => 11
-  | .clean false => 11
+  | .pre => 10
+  | .top => 11
+  | .deliver _ => 12
+  | .ready => 12
+  | .clean false => 12
 
 /-- how many more times the event-loop goroutine may call `Close` -/
 def lcalls : LoopPC → Nat
@@ -376,13 +379,12 @@ def loopNext (sh : Shape) (s : St) : Option St :=
   | .top =>
     if s.ctx then some { s with loop := if s.stream then .clean true else .ctxClose }
     else if s.done then some { s with loop := .clean true }
-    else some { s with loop := .arm }
+    else some { s with loop := if s.stream then .arm else .pre }
   | .clean r => if cleanableB s then some { s with loop := if r then .retn else .top } else none
   | .ctxClose => if 0 < s.m ∧ s.cl 0 = .idle then some { s with cl := upd s.cl 0 .lock, loop := .inClose (.clean true) } else none
   | .inClose a => if 0 < s.m ∧ s.cl 0 = .ret then some { s with cl := upd s.cl 0 .idle, loop := a } else none
-  | .arm =>
-    if s.stream = false ∧ s.done = true then some { s with loop := .errc false }
-    else some { s with dl := .future, loop := if sh.checkAfterArm then .check else .read }
+  | .pre => if s.done then some { s with loop := .errc false } else some { s with loop := .arm }
+  | .arm => some { s with dl := .future, loop := if sh.checkAfterArm then .check else .read }
   | .check => if s.done then some { s with dl := afterRead s, loop := .errc false } else some { s with loop := .read }
   | .read => if s.dl = .past then some { s with dl := afterRead s, loop := .top } else none
   | .readMore => if s.dl = .past then some { s with dl := afterRead s, loop := .errc false } else none
@@ -404,7 +406,8 @@ def actorNext (sh : Shape) (s : St) (a : Nat) : Option St :=
   if a = 0 then loopNext sh s
   else if a = 1 then muxNext s
   else if a < 2 + s.m then closerNext sh s (a - 2)
-  else sessNext s (a - 2 - s.m)
+  else if a < 2 + s.m + s.n then sessNext s (a - 2 - s.m)
+  else none
 
 def actors (s : St) : Nat := 2 + s.m + s.n
 
@@ -421,5 +424,62 @@ def runSched (sh : Shape) : Nat → St → List Nat → St
     match pick sh s (a % actors s) with
     | none => s
     | some t => runSched sh fuel t sched.tail
+
+/-! ## Executable environment steps and traces (for the driver and for the witnesses in Props/C15) -/
+
+inductive EnvAct
+  | addSession | sessCloseStart (i : Nat) | netBlock (i : Nat) | netDrain (i : Nat) | call (k : Nat)
+  | muxClose | cancel | tick | readTo (to : LoopPC) | drainEnds | delivered | accepted
+deriving DecidableEq, Repr
+
+/-- where a parked read may go when the network delivers -/
+def okReadTarget (s : St) : LoopPC → Bool
+  | .deliver i => decide (i < s.n)
+  | .ready | .top | .retn | .errc _ => true
+  | .readMore => s.stream
+  | _ => false
+
+def envNext (s : St) : EnvAct → Option St
+  | .addSession =>
+    some { s with n := s.n + 1, req := upd s.req s.n false, closed := upd s.closed s.n false,
+                  run := upd s.run s.n 2, net := upd s.net s.n 0 }
+  | .sessCloseStart i => if i < s.n then some { s with req := upd s.req i true } else none
+  | .netBlock i =>
+    if i < s.n ∧ s.stream = true ∧ 0 < s.run i then
+      some { s with run := upd s.run i (s.run i - 1), net := upd s.net i (s.net i + 1) } else none
+  | .netDrain i =>
+    if i < s.n ∧ 0 < s.net i then some { s with net := upd s.net i (s.net i - 1), run := upd s.run i (s.run i + 1) } else none
+  | .call k => if k < s.m ∧ 2 ≤ k ∧ s.cl k = .idle then some { s with cl := upd s.cl k .lock } else none
+  | .muxClose => if s.mux = .idle then some { s with mux := .cancel } else none
+  | .cancel => if s.server = true then some { s with ctx := true } else none
+  | .tick => if s.loop = .top then some { s with loop := .clean false } else none
+  | .readTo to =>
+    if (s.loop = .read ∨ s.loop = .readMore) ∧ okReadTarget s to = true then
+      some { s with dl := if to = .readMore then s.dl else afterRead s, loop := to } else none
+  | .drainEnds => if s.loop = .drain then some { s with loop := .retn } else none
+  | .delivered => match s.loop with
+    | .deliver _ => some { s with loop := .top }
+    | _ => none
+  | .accepted => if s.loop = .ready then some { s with loop := .top } else none
+
+/-- one entry of a trace: an own step of actor `a` (numbering of `actorNext`) or an environment step -/
+inductive Act
+  | own (a : Nat)
+  | env (e : EnvAct)
+deriving DecidableEq, Repr
+
+def actNext (sh : Shape) (s : St) : Act → Option St
+  | .own a => actorNext sh s a
+  | .env e => envNext s e
+
+/-- run a trace; `none` if some entry is not enabled -/
+def runActs (sh : Shape) : St → List Act → Option St
+  | s, [] => some s
+  | s, a :: as => match actNext sh s a with
+    | none => none
+    | some t => runActs sh t as
+
+/-- no actor can move -/
+def quiescentB (sh : Shape) (s : St) : Bool := (List.range (actors s)).all fun a => (actorNext sh s a).isNone
 
 end Mieru.UClose
